@@ -17,7 +17,7 @@ from .. import env, coq, runner, gates, tables, opsem, circuits as gcirc, mcircu
 
 LEVEL = 'translation_validation'
 META = dict(
-    text='Translation validation with proven components. Coq theorems: the trace-equivalence validator run on the real output of every "move, never change" transformer is sound AND complete (it accepts exactly the reorderings obtained by exchanging adjacent operations that share no qubit, no measurement key and no measured/controlling key pair), the projection lemma, trace-equivalent operation lists compute the same tensor for every ring, rank and input and keep every per-key measurement order; every constant gauge emitted by the gauge-compiling transformers satisfies (post0 x post1) . G\' . (pre0 x pre1) = c . G with |c| = 1 exactly in Q(zeta_8) (float instance to 2^-30 where entries are outside the field) and every dynamical-decoupling base sequence multiplies to a scalar; the phase-tracking loop of eject_z keeps the invariant Phi(tracked phases) . emitted = original prefix and emits an equal circuit for every denotation satisfying the commutation laws. A Pauli-basis measurement enters the reference semantics through its signed observable s.P as the keyed pair [(I+sP)/2; (I-sP)/2], proven (exactly, all strings of length <= 3, both signs) to be the complementary orthogonal self-adjoint idempotent resolution of s.P. On every run each exported transformer x options (tags_to_ignore, deep, tolerances, strategies) is executed on generated circuits (unitary, measured, classically controlled, tagged, nested, parameterised; measurement-like operations that are not a MeasurementGate: Pauli-basis measurements and keyed channels; circuits over few gates in many placements) and on two fixed grids (every kind of phase / flip in front of Pauli-basis measurements and keyed channels, for every transformer that accepts measurements; every overlapping placement of gate pairs whose commutation depends on the placement, for the commutation-based sorter) and its output is compared with its input inside Coq through the reference semantics: same unitary up to global phase, or same joint distribution of per-key measurement records with the same conditional state on the qubits that are not terminally measured; defer/dephase/drop_terminal_measurements, lightcone_filter and the symbolized merge under their documented contracts; every branch of every gauge selector is enumerated with a scripted prng; the eject_z model is compared with the real transformer; ignored-tag operations untouched, sub-circuits untouched unless deep, argument unchanged.',
+    text='Translation validation with proven components. Coq theorems: the trace-equivalence validator run on the real output of every "move, never change" transformer is sound AND complete (it accepts exactly the reorderings obtained by exchanging adjacent operations that share no qubit, no measurement key and no measured/controlling key pair), the projection lemma, trace-equivalent operation lists compute the same tensor for every ring, rank and input and keep every per-key measurement order; every constant gauge emitted by the gauge-compiling transformers satisfies (post0 x post1) . G\' . (pre0 x pre1) = c . G with |c| = 1 exactly in Q(zeta_8) (float instance to 2^-30 where entries are outside the field) and every dynamical-decoupling base sequence multiplies to a scalar; the phase-tracking loop of eject_z keeps the invariant Phi(tracked phases) . emitted = original prefix and emits an equal circuit for every denotation satisfying the commutation laws. A Pauli-basis measurement enters the reference semantics through its signed observable s.P as the keyed pair [(I+sP)/2; (I-sP)/2], proven (exactly, all strings of length <= 3, both signs) to be the complementary orthogonal self-adjoint idempotent resolution of s.P. On every run each exported transformer x options (tags_to_ignore, deep, tolerances, strategies) is executed on generated circuits (unitary, measured, classically controlled, tagged, nested, parameterised; measurement-like operations that are not a MeasurementGate: Pauli-basis measurements and keyed channels; circuits over few gates in many placements) and on two fixed grids (every kind of phase / flip in front of Pauli-basis measurements and keyed channels, for every transformer that accepts measurements; every overlapping placement of gate pairs whose commutation depends on the placement, for the commutation-based sorter; with tags_to_ignore set, an operation carrying the ignored tag - diagonal or not, one or two qubits, a measurement, a negligible gate - between phases / flips / mergeable gates and the measurements of the same qubits, for every transformer that takes tags_to_ignore; measurements that are last on their qubits but whose record a later classically controlled operation consumes, for every transformer that accepts measurements) and its output is compared with its input inside Coq through the reference semantics: same unitary up to global phase, or same joint distribution of per-key measurement records with the same conditional state on the qubits that are not terminally measured; defer/dephase/drop_terminal_measurements, lightcone_filter and the symbolized merge under their documented contracts; every branch of every gauge selector is enumerated with a scripted prng through both entry points (the one-shot call and as_sweep resolved with its sweep point) on the canonical target gates and on every other representation of them that the transformer\'s own target accepts (exponent shifted by whole periods in both directions, global shift, parent class); an output that reads a measurement key it does not record first (while the input does) is not executable and is reported; the eject_z model is compared with the real transformer; ignored-tag operations untouched, sub-circuits untouched unless deep, argument unchanged.',
     note='Level translation_validation: the quantifier over programs is sampled for every rewriting pass; only the reorder-only family is decided by a theorem applied to each real output (and eject_z by a model theorem plus correspondence over a restricted alphabet). Trusted: Coq kernel (primitive floats for the float-instance theorem); float instance (tolerance 1e-6) for the numeric comparison; each operation\'s own cirq.unitary / cirq.kraus / measurement description (tied to the documented matrices by C03/C04/C09) and CircuitOperation.mapped_circuit for flattening (C12); Python adapters (operation identification by Cirq equality, resources through cirq.measurement_key_objs / cirq.control_keys, cirq.phase_by as the phased gate of the eject_z correspondence). Routing, target gatesets and analytical decompositions exported from the same package belong to C07/C15; map_clean_and_borrowable_qubits is not exercised; RandomizedMeasurements changes the measured basis by design.',
     technique='Rocq/Coq proof of a sound and complete trace-equivalence validator + exact gauge identities in Q(zeta_8) + model of the eject_z loop with its invariant + vm_compute translation validation of every transformer output against the reference semantics',
 )
@@ -327,6 +327,28 @@ def multiset_missing(xs, ys):
     return missing
 
 
+def unmeasured_reads(cirq, circuit):
+    """Measurement keys that some operation of the (flattened) circuit reads (classical control) although no earlier operation
+    records them: such a circuit cannot be executed, it has no meaning to compare."""
+    have, bad = set(), []
+    for op in flatten_ops(cirq, circuit):
+        for k in sorted(map(str, cirq.control_keys(op))):
+            if k not in have and k not in bad:
+                bad.append(k)
+        have.update(map(str, cirq.measurement_key_objs(op)))
+    return bad
+
+
+def record_consumed(cirq, circuit):
+    """True iff the record of some measurement is read by a later classically controlled operation."""
+    have = set()
+    for op in flatten_ops(cirq, circuit):
+        if have & set(map(str, cirq.control_keys(op))):
+            return True
+        have.update(map(str, cirq.measurement_key_objs(op)))
+    return False
+
+
 def top_circuit_ops(cirq, circuit):
     return [op for op in circuit.all_operations() if isinstance(op.untagged, cirq.CircuitOperation)]
 
@@ -572,6 +594,62 @@ def measlike_grid(cirq):
     ]
 
 
+def keyflow_grid(cirq):
+    """Deterministic part of the 'measurement that is the last operation on its qubits but whose record is consumed later' class:
+    a classically controlled operation (key condition, sympy condition over a two-bit record, measurement inside a sub-circuit)
+    on ANOTHER qubit reads the key, then that qubit is measured.  Every measurement is terminal as far as qubits go."""
+    import sympy
+    q0, q1, q2 = cirq.LineQubit.range(3)
+    M = cirq.Moment
+    return [
+        ('record of a qubit-terminal measurement controls another qubit',
+         cirq.Circuit(M(cirq.H(q0)), M(cirq.measure(q0, key='a')), M(cirq.X(q1).with_classical_controls('a')), M(cirq.measure(q1, key='b')))),
+        ('two-bit record, sympy condition',
+         cirq.Circuit(M(cirq.H(q0), cirq.X(q1) ** 0.5), M(cirq.measure(q0, q1, key='a', invert_mask=(True,))), M(cirq.H(q2)),
+                      M(cirq.Z(q2).with_classical_controls(sympy.Symbol('a') >= 2)), M(cirq.H(q2)), M(cirq.measure(q2, key='b')))),
+        ('measurement inside a sub-circuit, read outside',
+         cirq.Circuit(M(cirq.CircuitOperation(cirq.FrozenCircuit(cirq.H(q0), cirq.measure(q0, key='a')))), M(cirq.Y(q1) ** 0.5),
+                      M(cirq.X(q1).with_classical_controls('a')), M(cirq.measure(q1, key='b')))),
+    ]
+
+
+def ignored_grid(cirq):
+    """Deterministic part of the 'operation carrying an ignored tag BETWEEN operations the transformer would otherwise combine,
+    commute or drop' class (run with tags_to_ignore set): the tagged operation is diagonal or not, on one or two qubits, a
+    measurement or a negligible gate; its neighbours are phases (Z, S, T, Z**t, CZ**t), Pauli flips, general single-qubit gates
+    and mergeable two-qubit gates; the measured circuits end in measurements of the same qubits, so a phase / flip that is
+    pushed through or dropped as if the tagged operation were not there (or commuted with everything) changes the records.
+    Returns (name, circuit, measured?)."""
+    q0, q1, q2 = cirq.LineQubit.range(3)
+    M = cirq.Moment
+    ig = lambda op: op.with_tags(IGN)
+    meas3 = M(cirq.measure(q0, key='a'), cirq.measure(q1, key='b'), cirq.measure(q2, key='c'))
+    return [
+        # ---- measured
+        ('phase, ignored non-diagonal 1q, measure', cirq.Circuit(M(cirq.H(q0), cirq.H(q1), cirq.H(q2)), M(cirq.Z(q0), cirq.S(q1), cirq.T(q2)),
+                                                                M(ig(cirq.H(q0)), ig(cirq.X(q1) ** 0.5), ig(cirq.Y(q2) ** 0.25)), meas3), True),
+        ('CZ**t, ignored non-diagonal on one leg, measure', cirq.Circuit(M(cirq.H(q0), cirq.H(q1), cirq.H(q2)), M(cirq.CZ(q0, q1)), M(cirq.CZ(q1, q2) ** 0.5),
+                                                                        M(ig(cirq.H(q1)), cirq.Z(q2) ** 0.3), meas3), True),
+        ('phase, ignored non-diagonal 2q, measure', cirq.Circuit(M(cirq.H(q0), cirq.H(q1), cirq.H(q2)), M(cirq.S(q0), cirq.Z(q1), cirq.Z(q2) ** -0.5),
+                                                                M(ig(cirq.CNOT(q0, q1))), M(ig(cirq.ISWAP(q1, q2) ** 0.5)), meas3), True),
+        ('phase, ignored diagonal, non-diagonal, measure', cirq.Circuit(M(cirq.H(q0), cirq.H(q1), cirq.X(q2) ** 0.3), M(cirq.Z(q0), cirq.CZ(q1, q2)), M(ig(cirq.Z(q0) ** 0.5), ig(cirq.CZ(q1, q2) ** 0.5)),
+                                                                       M(cirq.H(q0), cirq.X(q1) ** 0.5), M(cirq.T(q0)), meas3), True),
+        ('pauli flip, ignored op, measure', cirq.Circuit(M(cirq.X(q0) ** 0.3, cirq.H(q1), cirq.Y(q2) ** 0.2), M(cirq.X(q0), cirq.Y(q1), cirq.PhasedXPowGate(phase_exponent=0.25).on(q2)),
+                                                        M(ig(cirq.S(q0)), ig(cirq.H(q1)), ig(cirq.T(q2))), M(cirq.X(q0) ** 0.5, cirq.Z(q1)), meas3), True),
+        ('ignored mid-circuit measurement', cirq.Circuit(M(cirq.H(q0), cirq.H(q1)), M(cirq.S(q0), cirq.Z(q1)), M(ig(cirq.measure(q0, key='a'))), M(cirq.H(q0), ig(cirq.X(q1) ** 0.5)),
+                                                        M(cirq.T(q0)), M(cirq.measure(q0, key='b'), cirq.measure(q1, key='c'))), True),
+        # ---- unitary
+        ('phase, ignored non-diagonal, phase', cirq.Circuit(M(cirq.X(q0) ** 0.3, cirq.H(q1)), M(cirq.Z(q0) ** 0.3, cirq.S(q1)), M(ig(cirq.H(q0)), ig(cirq.X(q1) ** 0.5)),
+                                                           M(cirq.Z(q0) ** 0.2), M(cirq.CZ(q0, q1)), M(cirq.T(q1), cirq.H(q0))), False),
+        ('pauli flip, ignored op, pauli flip', cirq.Circuit(M(cirq.X(q0), cirq.Y(q1)), M(ig(cirq.S(q0)), ig(cirq.H(q1))), M(cirq.X(q0), cirq.PhasedXPowGate(phase_exponent=0.125).on(q1)),
+                                                           M(ig(cirq.CZ(q0, q1) ** 0.5)), M(cirq.Y(q0), cirq.X(q1) ** 0.5)), False),
+        ('1q gates around ignored 1q / 2q', cirq.Circuit(M(cirq.H(q0), cirq.X(q1) ** 0.5), M(ig(cirq.T(q0)), ig(cirq.X(q1) ** 0.5)), M(cirq.H(q0), cirq.X(q1) ** 0.5),
+                                                        M(ig(cirq.CNOT(q0, q1))), M(cirq.Y(q0) ** 0.25, cirq.H(q1)), M(ig(cirq.Z(q0) ** 1e-10))), False),
+        ('2q gates around ignored equal 2q', cirq.Circuit(M(cirq.H(q0), cirq.H(q1), cirq.H(q2)), M(cirq.CZ(q0, q1)), M(ig(cirq.CZ(q0, q1)), cirq.Z(q2)), M(cirq.CZ(q0, q1) ** 0.5),
+                                                         M(cirq.ISWAP(q1, q2)), M(ig(cirq.ISWAP(q1, q2)), ig(cirq.X(q0))), M(cirq.ISWAP(q1, q2) ** 0.5), M(cirq.ZZ(q0, q1) ** 0.3), M(ig(cirq.ZZ(q0, q1)))), False),
+    ]
+
+
 def gen_param(cirq, rng):
     import sympy
     syms = [sympy.Symbol(n) for n in 'abcd']
@@ -601,6 +679,43 @@ def gen_param(cirq, rng):
     for o in ops_:
         c.append(o, strategy=cirq.InsertStrategy.NEW if rng.random() < 0.2 else cirq.InsertStrategy.EARLIEST)
     return c
+
+
+def gauge_alternates(cirq, mods):
+    """Other representations of the gauge transformers' target gates: the exponent shifted by whole periods (both signs, so that the
+    sign of the raw exponent differs from the sign of the canonical representative), a global shift (target gate sets ignore the
+    global phase), the parent class of a named gate.  A transformer's own `op in transformer.target` decides which of them it takes."""
+    return ([cirq.CZ ** e for e in (3.0, -1.0, 1.5, -1.5, 2.5, -3.5, 2.3, -1.7)] + [cirq.ZZ ** e for e in (3.0, -1.0, 2.3, -1.7)]
+            + [cirq.ISWAP ** e for e in (5.0, -3.0, 4.5, -3.5)]
+            + [cirq.FSimGate(np.pi / 2, np.pi / 6), cirq.CZPowGate(exponent=1.0, global_shift=0.5), cirq.CZPowGate(exponent=-0.5, global_shift=-0.25),
+               cirq.ISwapPowGate(exponent=1.0, global_shift=1.0), cirq.ISwapPowGate(exponent=0.5, global_shift=0.5), cirq.ZZPowGate(exponent=1.0, global_shift=-0.5)])
+
+
+def accepted_alternates(cirq, mods, tr, base):
+    """the alternates `tr` gauges (decided by its own target) that are not literally (repr) one of `base`"""
+    q0, q1 = cirq.LineQubit.range(2)
+    target = getattr(tr, 'target', None)
+    if target is None:
+        return []
+    seen, out = {repr(g) for g in base}, []
+    for g in gauge_alternates(cirq, mods):
+        if repr(g) not in seen and g.on(q0, q1) in target:
+            seen.add(repr(g))
+            out.append(g)
+    return out
+
+
+def gauge_transformers(cirq, mods):
+    t, gc = cirq.transformers, cirq.transformers.gauge_compiling
+    return {'cz': t.CZGaugeTransformer, 'sqrt_cz': t.SqrtCZGaugeTransformer, 'iswap': t.ISWAPGaugeTransformer, 'sqrt_iswap': t.SqrtISWAPGaugeTransformer,
+            'zz': t.SpinInversionGaugeTransformer, 'cphase': gc.CPhaseGaugeTransformer, 'syc': mods['cirq_google'].transformers.SYCGaugeTransformer}
+
+
+def gauge_targets(cirq, rng, mods, kind):
+    """targets for the random streams: the canonical ones and, as often, their other accepted representations"""
+    base = GAUGE_TARGETS[kind](cirq, rng, mods)
+    alts = accepted_alternates(cirq, mods, gauge_transformers(cirq, mods)[kind], base)
+    return base + ([rng.choice(alts) for _ in base] if alts else [])
 
 
 GAUGE_TARGETS = {
@@ -652,7 +767,7 @@ def gen_circuit(cirq, rng, kinds, tags=True, nest=True, mods=None):
         c = gen_alphabet(cirq, rng)
     elif kind.startswith('gauge:'):
         parts = kind.split(':')
-        tw = GAUGE_TARGETS[parts[1]](cirq, rng, mods)
+        tw = gauge_targets(cirq, rng, mods, parts[1])
         tw = tw * 3 + [cirq.CNOT, cirq.CZ ** 0.3]
         c = gen_layers(cirq, rng, twoq=tw, measured=len(parts) > 2, cc=len(parts) > 2)
     else:
@@ -830,9 +945,10 @@ def make_configs(cirq, mods):
     C.append(Cfg('dephase_measurements', '', lambda c, context: t.dephase_measurements(c, context=cirq.TransformerContext(deep=True, tags_to_ignore=context.tags_to_ignore)), 'special',
                  kinds=('measured-nocc', 'terminal', 'gmeasured-nocc'), contract='average', sub_exempt=True, deep=False, expect_raise=no_cc))
     def not_terminal(c, deep, ign):
-        return not c.are_all_measurements_terminal()
+        # a measurement followed by an operation on its qubits, or whose record a later operation consumes, is not terminal
+        return not c.are_all_measurements_terminal() or record_consumed(cirq, c)
     C.append(Cfg('drop_terminal_measurements', '', lambda c, context: t.drop_terminal_measurements(c, context=cirq.TransformerContext(deep=True, tags_to_ignore=context.tags_to_ignore)), 'special',
-                 kinds=('terminal-nc', 'terminal-nc', 'measured-nocc-nc', 'gmeasured-nocc'), contract='drop_terminal', sub_exempt=True, deep=False, expect_raise=raises_documented(ValueError, not_terminal)))
+                 kinds=('terminal-nc', 'terminal-nc', 'measured-nocc-nc', 'gmeasured-nocc', 'measured-nc'), contract='drop_terminal', sub_exempt=True, deep=False, expect_raise=raises_documented(ValueError, not_terminal)))
     C.append(Cfg('lightcone_filter', '', ctx_call(t.lightcone_filter), 'special', kinds=('measured', 'terminal', 'gmeasured'), contract='records', ignore=False, deep=False, sub_exempt=True))
     return C
 
@@ -845,7 +961,7 @@ def run_case(ctx, cirq, cfg, circuit, kind, deep, ignore, checks, case_no, prng_
     context = cirq.TransformerContext(deep=deep, tags_to_ignore=(IGN,) if ignore else ())
     desc = f'{cfg.id} deep={deep} tags_to_ignore={(IGN,) if ignore else ()} on {str(circuit)[:600]}'
     if kind.startswith('grid:'):        # grid circuits are flat: the operation list reads better than the diagram
-        desc = f'{cfg.id} deep={deep} tags_to_ignore=() on {kind}: [{", ".join(str(op) for op in circuit.all_operations())[:700]}]'
+        desc = f'{cfg.id} deep={deep} tags_to_ignore={(IGN,) if ignore else ()} on {kind}: [{", ".join(str(op) for op in circuit.all_operations())[:700]}]'
     rep = dict(config=cfg.id, deep=deep, ignore=ignore, circuit=repr(circuit), diagram=str(circuit), circuit_kind=kind)
     before = snapshot(cirq, circuit)
     frozen_copy = circuit.freeze() if rng.random() < 0.3 else None
@@ -904,6 +1020,15 @@ def run_case(ctx, cirq, cfg, circuit, kind, deep, ignore, checks, case_no, prng_
         a, b = flatten_ops(cirq, circuit), flatten_ops(cirq, out)
         if multiset_missing(a, b) or multiset_missing(b, a):
             ctx.violation(f'{cfg.name}:not-a-permutation', f'{cfg.id}: the output operations are not a permutation of the input operations; {desc}\noutput:\n{out}', dict(kind='permutation', output=repr(out), **rep))
+    # the output is executable: it reads no measurement record that it does not produce first (if the input is executable)
+    dangling = [k for k in unmeasured_reads(cirq, out) if k not in unmeasured_reads(cirq, circuit)]
+    if cfg.contract == 'defer' and ignore and any(cirq.control_keys(o) or cirq.is_measurement(o) for o in collect_ignored(cirq, circuit, True)):
+        dangling = []       # an ignored classically controlled operation cannot be both left untouched and fed by a deferred measurement (see below)
+    if dangling:
+        ctx.violation(f'{cfg.name}:output-reads-unmeasured-key', f'{cfg.id}: the output reads measurement key(s) {dangling} that it never records before (the input records them first), '
+                      f'so it cannot be executed and means nothing; {desc}\noutput:\n{str(out)[:600]}', dict(kind='dangling-key', keys=dangling, output=repr(out), **rep))
+        ctx.count(cfg.id, [rep['circuit'], deep, ignore], True)
+        return
     # semantic comparison through the reference semantics
     c_in, c_out = circuit, out
     if cirq.is_parameterized(circuit) or cirq.is_parameterized(out):
@@ -1266,8 +1391,12 @@ def ejectz_model_stream(ctx, cirq, checks, case_no, n):
 def grid_stream(ctx, cirq, configs, checks, case_no):
     """The fixed grids (same in both tiers and for every seed): measurement-like operations that are not a cirq.MeasurementGate
     behind every kind of phase / flip, for every configuration that accepts such circuits; the placement grid for the
-    configurations that decide by commutation.  Plain options (deep=False, no ignored tags): the random stream varies those."""
+    configurations that decide by commutation (plain options: deep=False, no ignored tags; the random stream varies those);
+    the ignored-tag grid (tags_to_ignore set, a tagged operation between operations the transformer would combine, commute or
+    drop) for every configuration that takes tags_to_ignore."""
     grid = measlike_grid(cirq)
+    ign_grid = ignored_grid(cirq)
+    key_grid = keyflow_grid(cirq)
     for cfg in configs:
         kinds = set(cfg.kinds)
         if kinds & {'gmeasured', 'ejectable-gmeasured', 'pmeasured', 'gmeasured-nocc'}:
@@ -1286,6 +1415,17 @@ def grid_stream(ctx, cirq, configs, checks, case_no):
             for name, circuit in placement_grid(cirq, ctx.rng):
                 case_no += 1
                 run_case(ctx, cirq, cfg, circuit, 'grid:' + name, False, False, checks, case_no)
+        if cfg.call is not None and any(('measured' in k or 'terminal' in k) for k in kinds):
+            for name, circuit in key_grid:
+                case_no += 1
+                run_case(ctx, cirq, cfg, circuit.copy(), 'grid:keyflow:' + name, False, False, checks, case_no)
+        if cfg.ignore and cfg.call is not None:
+            takes_unitary = bool(kinds & {'unitary', 'layers', 'ejectable', 'alphabet'}) or any(k.startswith('gauge:') for k in kinds)
+            takes_measured = any(('measured' in k or 'terminal' in k) for k in kinds)
+            for name, circuit, measured in ign_grid:
+                if takes_measured if measured else takes_unitary:
+                    case_no += 1
+                    run_case(ctx, cirq, cfg, circuit.copy(), 'grid:ignored:' + name, False, True, checks, case_no)
     return case_no
 
 
@@ -1348,7 +1488,7 @@ def gauge_as_sweep_stream(ctx, cirq, mods, checks, case_no, n):
     for name, tr, kind in trs:
         for k in range(n):
             rng = random.Random(f'{ctx.seed}:as_sweep:{name}:{k}')
-            c = gen_layers(cirq, rng, twoq=GAUGE_TARGETS[kind](cirq, rng, mods) * 3 + [cirq.CNOT], n=rng.randint(2, 3), depth=rng.randint(2, 5))
+            c = gen_layers(cirq, rng, twoq=gauge_targets(cirq, rng, mods, kind) * 3 + [cirq.CNOT], n=rng.randint(2, 3), depth=rng.randint(2, 5))
             cfg = Cfg(name, 'as_sweep', None, 'semantic')
             seed = rng.randrange(1 << 30)
             rep = dict(config=cfg.id, deep=False, ignore=False, circuit=repr(c), diagram=str(c), circuit_kind='gauge-as-sweep', prng_seed=seed, root_cause='')
@@ -1391,48 +1531,101 @@ def randomized_measurements_stream(ctx, cirq, n):
         ctx.count('RandomizedMeasurements:input-unchanged', repr(c), False)
 
 
-def gauge_sweep_stream(ctx, cirq, mods, checks, case_no):
-    """Every branch of every gauge selector (scripted prng, DFS over its choices) on one target gate between random 1q gates."""
-    import random
-    from ..scripted import ScriptedSeed, NeedBranch
-    t = cirq.transformers
-    gc = t.gauge_compiling
+def make_gauge_seed():
+    from ..scripted import ScriptedSeed
 
     class GaugeSeed(ScriptedSeed):
+        """scripted prng: every discrete draw follows the script; a continuous draw (prng.random()) comes from `inner`"""
         def __init__(self, script, inner):
             super().__init__(script)
             self.inner = inner
 
         def random(self, size=None):
             return self.inner.random()
+    return GaugeSeed
 
+
+def enumerate_gauge_runs(fn, inner_seed, cap):
+    """DFS over the discrete draws of fn(prng) (last draw varied first); returns [(probability, result, script)], at most cap."""
+    import random
+    from ..scripted import NeedBranch
+    GaugeSeed = make_gauge_seed()
+    runs, stack = [], [[]]
+    while stack and len(runs) < cap:
+        script = stack.pop()
+        seed = GaugeSeed(script, random.Random(inner_seed))
+        try:
+            runs.append((seed.prob, fn(seed), script))
+        except NeedBranch as nb:
+            stack.extend(script + [k] for k in reversed(range(len(nb.probs))) if nb.probs[k] > 0)
+    return runs
+
+
+def gauge_sweep_cases(cirq, mods):
+    t = cirq.transformers
+    gc = t.gauge_compiling
+    return [('CZGaugeTransformer', t.CZGaugeTransformer, [cirq.CZ]), ('SqrtCZGaugeTransformer', t.SqrtCZGaugeTransformer, [cirq.CZ ** 0.5, cirq.CZ ** -0.5]),
+            ('CPhaseGaugeTransformer', gc.CPhaseGaugeTransformer, [cirq.CZ ** 0.3, cirq.CZ ** -1.7]), ('SpinInversionGaugeTransformer', t.SpinInversionGaugeTransformer, [cirq.ZZ ** 0.3, cirq.ZZ]),
+            ('ISWAPGaugeTransformer', t.ISWAPGaugeTransformer, [cirq.ISWAP]), ('SqrtISWAPGaugeTransformer', t.SqrtISWAPGaugeTransformer, [cirq.SQRT_ISWAP]),
+            ('SYCGaugeTransformer', mods['cirq_google'].transformers.SYCGaugeTransformer, [mods['cirq_google'].SYC])]
+
+
+def as_sweep_resolved(cirq, tr, c, prng):
+    """as_sweep with one parameter set, resolved: the circuit that sweep point runs"""
+    pc, sweep = tr.as_sweep(c, N=1, prng=prng)
+    points = list(sweep)
+    if len(points) != 1:
+        raise ValueError(f'as_sweep(N=1) returned {len(points)} sweep points')
+    return pc, cirq.resolve_parameters(pc, points[0])
+
+
+def gauge_sweep_stream(ctx, cirq, mods, checks, case_no):
+    """Every branch of every gauge selector (scripted prng, DFS over its choices) on one target gate between random 1q gates, through
+    both entry points: the one-shot call and as_sweep (N=1; the draws of its circuit-building pass stay on their first branch while
+    the draws that choose the sweep values are enumerated).  Targets: the canonical gates (both orientations) and every other
+    representation of them that the transformer's own target accepts (exponent shifted by periods, global shift, parent class)."""
+    import random
     q0, q1 = cirq.LineQubit.range(2)
-    cases = [('CZGaugeTransformer', t.CZGaugeTransformer, [cirq.CZ]), ('SqrtCZGaugeTransformer', t.SqrtCZGaugeTransformer, [cirq.CZ ** 0.5, cirq.CZ ** -0.5]),
-             ('CPhaseGaugeTransformer', gc.CPhaseGaugeTransformer, [cirq.CZ ** 0.3, cirq.CZ ** -1.7]), ('SpinInversionGaugeTransformer', t.SpinInversionGaugeTransformer, [cirq.ZZ ** 0.3, cirq.ZZ]),
-             ('ISWAPGaugeTransformer', t.ISWAPGaugeTransformer, [cirq.ISWAP]), ('SqrtISWAPGaugeTransformer', t.SqrtISWAPGaugeTransformer, [cirq.SQRT_ISWAP]),
-             ('SYCGaugeTransformer', mods['cirq_google'].transformers.SYCGaugeTransformer, [mods['cirq_google'].SYC])]
-    for name, tr, targets in cases:
-        for g in targets:
-            for orient in ((q0, q1), (q1, q0)):
+    for name, tr, base in gauge_sweep_cases(cirq, mods):
+        alts = accepted_alternates(cirq, mods, tr, base)
+        if ctx.tier == 'quick':
+            alts = alts[:5]
+        for gi, g in enumerate(base + alts):
+            orients = ((q0, q1), (q1, q0)) if gi < len(base) else (((q0, q1), (q1, q0))[gi % 2],)
+            for orient in orients:
                 rng = random.Random(f'{ctx.seed}:sweep:{name}:{g}:{orient}')
                 c = cirq.Circuit(cirq.Moment(rand_1q(cirq, rng).on(q) for q in (q0, q1)), cirq.Moment(g.on(*orient)), cirq.Moment(rand_1q(cirq, rng).on(q) for q in (q0, q1)))
-                runs, stack, inner_seed = [], [[]], rng.random()
-                while stack and len(runs) < 80:
-                    script = stack.pop()
-                    seed = GaugeSeed(script, random.Random(inner_seed))
+                inner_seed = rng.random()
+                entries = [('every gauge', 'gauge-sweep', 'gauge-branch', lambda seed: tr(c, prng=seed), 80)]
+                if orient == orients[0]:
+                    entries.append(('every gauge as_sweep', 'gauge-sweep-as_sweep', 'as_sweep-branch', lambda seed: as_sweep_resolved(cirq, tr, c, seed)[1], 100))
+                n_branches = 80
+                for variant, ckind, rc, fn, cap in entries:
+                    cfg = Cfg(name, variant, None, 'semantic')
                     try:
-                        runs.append((seed.prob, tr(c, prng=seed), script))
-                    except NeedBranch as nb:
-                        stack.extend(script + [k] for k in reversed(range(len(nb.probs))) if nb.probs[k] > 0)
-                for prob, out, script in runs:
-                    case_no += 1
-                    ops_in, ops_out = flatten_ops(cirq, c), flatten_ops(cirq, out)
-                    expr, kind = semantic_check(cirq, rng, ops_in, ops_out, 'same')
-                    cfg = Cfg(name, 'every gauge', None, 'semantic')
-                    rep = dict(config=cfg.id, deep=False, ignore=False, circuit=repr(c), diagram=str(c), circuit_kind='gauge-sweep', gauge_script=script,
-                               output=repr(out), output_diagram=str(out), root_cause=f'gauge-branch:{script}')
-                    checks.append(dict(case=case_no, what='semantics', stream=f'{cfg.id}:{kind}', expr=expr, cfg=cfg, rep=rep, desc=f'{name} gauge branch {script} on {g} {orient}'))
-                    ctx.count(cfg.id, [name, repr(g), str(orient), script], True, sample=dict(transformer=cfg.id, target=repr(g), gauge_script=script, output=str(out)[:300]))
+                        # as_sweep draws a gauge per target in its building pass and again per sweep point: the first `n_branches` runs
+                        # of the DFS are exactly "building pass on its first branch x every branch of the value pass"
+                        runs = enumerate_gauge_runs(fn, inner_seed, cap if ckind == 'gauge-sweep' else n_branches)
+                        if ckind == 'gauge-sweep':
+                            n_branches = len(runs)
+                    except Exception as e:
+                        import traceback
+                        ctx.violation(f'{name}:{variant.replace(" ", "-")}:raises:{type(e).__name__}:{error_class(str(e))}', f'{cfg.id} raised {type(e).__name__}: {str(e)[:300]} on {g!r} {orient}:\n{c}',
+                                      dict(kind='raises', error=traceback.format_exc()[-1500:], config=cfg.id, circuit=repr(c), circuit_kind=ckind))
+                        continue
+                    for prob, out, script in runs:
+                        case_no += 1
+                        if cirq.is_parameterized(out):
+                            ctx.violation(f'{name}:as_sweep:unresolved-symbols', f'{cfg.id}: the returned sweep does not resolve {sorted(cirq.parameter_names(out))} on\n{c}',
+                                          dict(kind='sweep', config=cfg.id, circuit=repr(c), circuit_kind=ckind, gauge_script=script))
+                            continue
+                        ops_in, ops_out = flatten_ops(cirq, c), flatten_ops(cirq, out)
+                        expr, kind = semantic_check(cirq, rng, ops_in, ops_out, 'same')
+                        rep = dict(config=cfg.id, deep=False, ignore=False, circuit=repr(c), diagram=str(c), circuit_kind=ckind, gauge_script=script, inner_seed=inner_seed,
+                                   output=repr(out), output_diagram=str(out), root_cause=f'{rc}:{script}')
+                        checks.append(dict(case=case_no, what='semantics', stream=f'{cfg.id}:{kind}', expr=expr, cfg=cfg, rep=rep,
+                                           desc=f'{cfg.id} gauge branch {script} on target {g!r} {orient} in [{", ".join(str(op) for op in c.all_operations())}]'))
+                        ctx.count(cfg.id, [name, repr(g), str(orient), script], True, sample=dict(transformer=cfg.id, target=repr(g), gauge_script=script, output=str(out)[:300]))
     return case_no
 
 
@@ -1443,7 +1636,9 @@ def run(ctx):
                 'circuits with mid-circuit/terminal measurements (invert masks, confusion maps, repeated keys), classical control (key, bit-mask, sympy conditions), '
                 'tags (ignored / innocent), empty moments, nested (repeated, tagged) CircuitOperations, qudits for the reorder-only family; '
                 'measurement-like operations of every kind (Pauli-basis measurements X/Y/Z, +/-, 1-2 qubits, keyed Kraus / mixed-unitary channels) mid-circuit and terminal; '
-                'circuits over 2-4 distinct gates in many placements; fixed grids (measurement-like neighbourhoods x every measuring configuration, placement grid x insertion sort); '
+                'circuits over 2-4 distinct gates in many placements; fixed grids (measurement-like neighbourhoods x every measuring configuration, placement grid x insertion sort, '
+                'ignored-tag barrier grid x every configuration taking tags_to_ignore, consumed-record grid x every measuring configuration); gauge targets in every accepted representation '
+                '(exponent modulo period, global shift) x every selector branch x {call, as_sweep}; '
                 'non-trivial = >=2 operations and the output differs from the input; distinct by (transformer, options, circuit)')
     ctx.assumptions += ['float tolerance 1e-6 for the numeric comparison', 'operations enter the model through their own cirq.unitary/kraus/measurement description',
                         'CircuitOperation.mapped_circuit is used to flatten nested circuits on both sides']
@@ -1495,19 +1690,12 @@ def replay(ctx, data):
     circuit = eval(data['circuit'], ns)
     checks = []
     cid = data.get('config', '')
-    if data.get('circuit_kind') == 'gauge-sweep':
-        from ..scripted import ScriptedSeed
+    if data.get('circuit_kind') in ('gauge-sweep', 'gauge-sweep-as_sweep'):
         import random
-        class GaugeSeed(ScriptedSeed):
-            def random(self, size=None):
-                return self.inner.random()
-        t, gc = cirq.transformers, cirq.transformers.gauge_compiling
-        trs = {'CZGaugeTransformer': t.CZGaugeTransformer, 'SqrtCZGaugeTransformer': t.SqrtCZGaugeTransformer, 'CPhaseGaugeTransformer': gc.CPhaseGaugeTransformer,
-               'SpinInversionGaugeTransformer': t.SpinInversionGaugeTransformer, 'ISWAPGaugeTransformer': t.ISWAPGaugeTransformer,
-               'SqrtISWAPGaugeTransformer': t.SqrtISWAPGaugeTransformer, 'SYCGaugeTransformer': mods['cirq_google'].transformers.SYCGaugeTransformer}
-        seed = GaugeSeed(data['gauge_script'])
-        seed.inner = random.Random(0)
-        out = trs[cid.split('[')[0]](circuit, prng=seed)
+        trs = {nm: tr for nm, tr, _ in gauge_sweep_cases(cirq, mods)}
+        tr = trs[cid.split('[')[0]]
+        seed = make_gauge_seed()(data['gauge_script'], random.Random(data.get('inner_seed', 0)))
+        out = as_sweep_resolved(cirq, tr, circuit, seed)[1] if data['circuit_kind'].endswith('as_sweep') else tr(circuit, prng=seed)
         expr, kind = semantic_check(cirq, random.Random(0), flatten_ops(cirq, circuit), flatten_ops(cirq, out), 'same')
         checks.append(dict(case=0, what='semantics', stream=f'{cid}:{kind}', expr=expr, cfg=Cfg(cid.split('[')[0], 'every gauge', None, 'semantic'), rep=dict(data, output_diagram=str(out)), desc=cid))
     elif cid.startswith('merge_single_qubit_gates_to_phxz_symbolized'):
